@@ -14,4 +14,8 @@ for id in $ids litmus; do
   /verif/bin/vcheck build "$id" >/dev/null || { echo "setup: building harness $id failed" >&2; exit 1; }
 done
 /verif/.work/litmus/h > /verif/.work/litmus.log 2>&1 || { echo "setup: litmus suite of the scheduler failed" >&2; tail -5 /verif/.work/litmus.log >&2; exit 1; }
+# self-test of the race-detector integration (C16): a locked access pair must be silent, an unlocked one reported
+VERIF_RACE=1 /verif/bin/vcheck build racetest >/dev/null || { echo "setup: building racetest failed" >&2; exit 1; }
+if /verif/.work/racetest/h locked 2>&1 | grep -q "DATA RACE"; then echo "setup: race self-test: false report under a modelled mutex" >&2; exit 1; fi
+if ! /verif/.work/racetest/h unlocked 2>&1 | grep -q "DATA RACE"; then echo "setup: race self-test: unsynchronised access not reported" >&2; exit 1; fi
 echo "setup ok"
